@@ -362,6 +362,8 @@ bool AutomationMgr::handleMidi(int channel, int type, int val)
         if(bound_nrpn)
             return 1;
         }
+        else
+            return 0; //incomplete NRPN sequence: no controller to drive or learn yet
         
     }
     else {
